@@ -432,6 +432,9 @@ func vfC07Judge(rt *rapid.T, vf *vfCollector, rig *vfxRig, cfg, prev *vfxCfg, k 
 		if ps := vfxPanicSite(frontLog); ps != "" {
 			key = "handler-panic " + ps
 		}
+		if cfg.Mirror && rig.mirroredBefore && resp.Status == 503 && k.Status != 503 && len(seen) > 0 {
+			key = vfxKeyMirrorCancel
+		}
 		if len(frontLog) > 3000 {
 			frontLog = frontLog[:3000] + "…"
 		}
